@@ -30,17 +30,18 @@ def run_history(pattern, shape, nmax, calls, method, crop, bc, prefill, shared):
     """returns the outputs of every call; shared=True: one set of buffers/outputs/pattern for the whole history"""
     c = pattern.get_crop_size()
     res = []
+    wdt = np.float64 if 'f64' in method else np.float32        # working buffers as allocated for float64 / 32-bit integer data
     if shared:
-        crop_bufs = np.full((bc, 2 * c, 2 * c), prefill, dtype=np.float32)
-        frame_buf = np.full(shape, prefill, dtype=np.float32)
+        crop_bufs = np.full((bc, 2 * c, 2 * c), prefill, dtype=wdt)
+        frame_buf = np.full(shape, prefill, dtype=wdt)
         outs_all = (np.full((nmax, 2), -99, dtype=np.int32), np.full((nmax, 2), prefill, dtype=np.float32),
                     np.full((nmax,), prefill, dtype=np.float32), np.full((nmax,), prefill, dtype=np.float32))
-        if method.endswith('strided'):
+        if 'strided' in method:
             # the output arrays are columns of one result table per kind (non-contiguous views), as a caller collecting results would pass
             itab, ftab = np.full((nmax, 4), -99, dtype=np.int32), np.full((nmax, 6), prefill, dtype=np.float32)
             outs_all = (itab[:, 1:3], ftab[:, 0:2], ftab[:, 3], ftab[:, 5])
     for call in calls:
-        frame = call['ints'].astype(np.float32)
+        frame = call['ints'].astype(wdt)
         n = len(call['peaks'])
         if shared:
             outs = tuple(o[:n] for o in outs_all)
@@ -52,9 +53,9 @@ def run_history(pattern, shape, nmax, calls, method, crop, bc, prefill, shared):
         else:
             p2 = cl.pattern_from_desc(pattern._verif_desc)
             if method.startswith('fast'):
-                outs = cl.run_fast(p2, frame, call['peaks'], bc=bc, crop_function=CROPS[crop])
+                outs = cl.run_fast(p2, frame, call['peaks'], bc=bc, crop_function=CROPS[crop], dtype=wdt)
             else:
-                outs = cl.run_full(p2, frame, call['peaks'], bc=bc, crop_function=CROPS[crop])
+                outs = cl.run_full(p2, frame, call['peaks'], bc=bc, crop_function=CROPS[crop], dtype=wdt)
             res.append(outs)
     return res
 
@@ -75,7 +76,7 @@ def history_failure(pattern, shape, nmax, calls, method, crop, bc, prefill):
 
 
 def mk_replay(desc, shape, nmax, calls, method, crop, bc, prefill, fail):
-    return {'kind': 'history', 'call': 'process_frame_%s x %d' % (method.split('-')[0] + (' (strided output views)' if method.endswith('strided') else ''), len(calls)),
+    return {'kind': 'history', 'call': 'process_frame_%s x %d' % (method.split('-')[0] + (' (strided output views)' if 'strided' in method else ''), len(calls)),
             'args': {'pattern': desc, 'shape': list(shape), 'nmax': nmax, 'method': method, 'crop': crop, 'buffer_count': bc, 'prefill': prefill,
                      'calls': [{'ints': c['ints'].tolist(), 'peaks': [list(map(int, p)) for p in c['peaks']]} for c in calls]},
             'failure': fail}
@@ -120,7 +121,7 @@ def run(ctx):
         ncalls = int(rng.integers(1, 7))
         pattern, desc, shape, nmax, calls = gen_history(rng, ncalls, cmax=4 if h % 2 else 3, smax=24 if h % 2 else 11)
         pattern._verif_desc = desc
-        method = ('fast' if h % 3 != 2 else 'full') + ('-strided' if h % 4 == 3 else '')
+        method = ('fast' if h % 3 != 2 else 'full') + ('-strided' if h % 4 == 3 else '') + ('-f64' if h % 5 == 2 else '')
         crop = 'slicing' if h % 2 == 0 else 'per_pixel'
         bc = int(rng.integers(1, nmax + 2))
         prefill = float(rng.choice([0.0, 7.5, np.nan, 1e30, -3.0]))
